@@ -307,6 +307,9 @@ impl RD {
                 }
                 if let Some((c, k)) = &ix.filter {
                     s.push_str(&format!(" WHERE (({}) > ({k}))", self.id(c)));
+                    for m in &ix.filter_more {
+                        s.push_str(&format!(" AND (({}) <> ({m}))", self.id(c)));
+                    }
                 }
             }
             _ => {
